@@ -4,9 +4,11 @@ package main
 // dictionary overflow/reset, with and without IPC compression).
 
 import (
+	"bytes"
 	"fmt"
 	"strings"
 
+	colarspb "github.com/open-telemetry/otel-arrow/api/experimental/arrow/v1"
 	cfgpkg "github.com/open-telemetry/otel-arrow/pkg/config"
 )
 
@@ -55,6 +57,14 @@ func runFraming(o opts, out *Output) {
 		curSid := map[int32]string{}   // type -> current sid
 		dead := map[string]bool{}
 		ok := true
+		// the batches stay with a slow receiver until the end of the history: what was emitted must not change
+		type keptPayload struct {
+			batch, idx int
+			pl         *colarspb.ArrowPayload
+			snapshot   []byte
+			table      *Table
+		}
+		var kept []keptPayload
 		for b := 0; b < nb && ok; b++ {
 			sig := mode
 			if mode == 3 {
@@ -122,6 +132,7 @@ func runFraming(o opts, out *Output) {
 					out.Violation("C12", "transport-changes-record", fmt.Sprintf("payload %d (%s): record after transport differs from the record written: %s", i, pl.Type, d), replay)
 				}
 				stats["payloads"]++
+				kept = append(kept, keptPayload{b, i, pl, append([]byte(nil), pl.Record...), rec.Table})
 			}
 			if int(bar.BatchId) != len(hist) {
 				out.Violation("C12", "batch-id", fmt.Sprintf("batch id %d, expected %d", bar.BatchId, len(hist)), replay)
@@ -134,6 +145,26 @@ func runFraming(o opts, out *Output) {
 				stats["event_"+e.Kind]++
 			}
 			sample = append(sample, map[string]any{"signal": res.Signal, "payloads": describe(bar), "events": evs})
+		}
+		if ok {
+			late := newIndepReader()
+			for _, kp := range kept {
+				replay := map[string]any{"seed": o.seed, "case": c, "batch": kp.batch, "payload": kp.idx, "options": optName}
+				if !bytes.Equal(kp.snapshot, kp.pl.Record) {
+					out.Violation("C12", "emitted-payload-overwritten", fmt.Sprintf("payload %d of batch %d (%s, schema id %s) no longer holds the bytes it was emitted with: a later Produce call overwrote them", kp.idx, kp.batch, kp.pl.Type, kp.pl.SchemaId), replay)
+					break
+				}
+				t, err := late.read(kp.pl)
+				if err != nil {
+					out.Violation("C12", "late-reader-fails", fmt.Sprintf("an independent Arrow IPC reader that reads the kept batches after the whole history cannot decode payload %d of batch %d: %v", kp.idx, kp.batch, err), replay)
+					break
+				}
+				if d := tablesEqual(kp.table, t); d != "" {
+					out.Violation("C12", "late-transport-changes-record", fmt.Sprintf("payload %d of batch %d read after the whole history differs from the record written: %s", kp.idx, kp.batch, d), replay)
+					break
+				}
+				stats["late_payloads"]++
+			}
 		}
 		func() { defer func() { recover() }(); pr.p.Close() }()
 		if len(hist) == 0 {
